@@ -20,6 +20,10 @@ from . import common
 from . import c16_terms as T
 from .common import glist
 
+
+def gbool(b) -> str:
+    return "true" if b else "false"
+
 PID = "C16"
 
 # ---------------------------------------------------------------------------------------------
@@ -477,6 +481,34 @@ def gen_modules(run, rnd):
         mods.append("async def f():\n" + bf.format(h="f") + "f()\n")
         mods.append("'doc'\ndef f():\n    'doc'\n    'more'\n" + bf.format(h="f") + "'s'\nf()\n")
     mods += class_family(run)
+    # the repaired guards: names bound by something else than one def (parameter, import, loop / with / except target,
+    # a second definition), decorated definitions, classes with bases / keywords / decorators, try bodies, `_` that is
+    # read, iteration over unknown objects
+    mods += [src for _, _, src, _, _ in hunt_family()]
+    for i, bf in enumerate(FUNC_TEXTS[:8]):
+        body = bf.format(h="f")
+        for binder in ("def g(f):\n    return f()\n", "def g(*f):\n    pass\n", "def g(**f):\n    pass\n", "g = lambda f: 1\n",
+                       "import f\n", "import f.sub\n", "import m as f\n", "from m import f\n", "from m import n as f\n",
+                       "for f in x:\n    pass\n", "with x as f:\n    pass\n", "try:\n    pass\nexcept E as f:\n    pass\n",
+                       "[f for f in x]\n", "(f := 1)\n", "class f:\n    pass\n", "class K:\n    def f(self):\n        return 1\n",
+                       "global f\n", "del f\n", "x.f = 1\n"):
+            mods.append("def f():\n" + body + binder + "f()\n")
+        for deco in ("@d\n", "@d(1)\n", "@staticmethod\n"):
+            mods.append(deco + "def f():\n" + body + "f()\nh()\n")
+            mods.append("def h():\n    return f()\n" + deco + "def f():\n" + body + "f()\nh()\n")
+        for head in ("class A(Base):\n", "class A(metaclass=M):\n", "@d\nclass A:\n", "class A(object):\n", "class A():\n"):
+            mods.append("def f():\n" + body + head + "    def __init__(self):\n        f()\nA()\nf()\n")
+    for st in STMT_TAILS + ["'s'\n1\n", "pass\n", "_ = 1\n", "x[0]\n", "len(x)\n", "[*x]\n", "[a for a in x]\n",
+                            "[a for a in [1]]\n", "for _ in x:\n    pass\n", "for _ in range(3):\n    pass\n",
+                            "def _():\n    pass\n", "class _:\n    pass\n", "class _(B):\n    pass\n"]:
+        ind = "    " + st.rstrip("\n").replace("\n", "\n    ") + "\n"
+        for pre in ("def f():\n    return 1\n", "def f():\n    print(1)\n"):
+            mods.append(pre + "try:\n" + ind + "except E:\n    pass\n")
+            mods.append(pre + "try:\n    'doc'\n" + ind + "    y\nexcept E:\n" + ind + "else:\n" + ind + "finally:\n" + ind)
+            mods.append(pre + "try:\n" + ind + "finally:\n    pass\n")
+            mods.append(pre + st + "print(_)\n")
+            mods.append(pre + st + "def k():\n    global _\n")
+            mods.append(pre + st + "_ = 2\n")
     for _ in range(150 if run.tier == "quick" else 3000):
         fs = rnd.sample(["f", "h", "k", "f"], rnd.randint(1, 3))
         src = ""
@@ -500,10 +532,25 @@ def gen_modules(run, rnd):
 
 def module_model_input(mods, root):
     """What EffectModel.safe_callable_names takes: the definitions in the order of core.walk, for each the
-    statements handed to has_side_effect (split by core.is_blocking) and the return values."""
+    statements handed to has_side_effect (split by core.is_blocking), the return values and whether it is decorated;
+    the names bound by anything but a def / class statement; the names that several definitions share; the classes
+    without bases / keywords / decorators with the indices of their constructors."""
     core = mods["core"]
     fdefs = list(core.walk(root, (ast.FunctionDef, ast.AsyncFunctionDef)))
-    shadowed = sorted({n.id for n in ast.walk(root) if isinstance(n, ast.Name) and isinstance(n.ctx, ast.Store)})
+    shadowed = set()
+    counts = {}
+    for n in ast.walk(root):
+        if isinstance(n, ast.Name) and isinstance(n.ctx, ast.Store):
+            shadowed.add(n.id)
+        elif isinstance(n, ast.arg):
+            shadowed.add(n.arg)
+        elif isinstance(n, (ast.Import, ast.ImportFrom)):
+            shadowed.update((a.asname or a.name).split(".")[0] for a in n.names)
+        elif isinstance(n, ast.ExceptHandler) and n.name:
+            shadowed.add(n.name)
+        elif isinstance(n, (ast.FunctionDef, ast.AsyncFunctionDef, ast.ClassDef)):
+            counts[n.name] = counts.get(n.name, 0) + 1
+    dups = sorted(x for x, c in counts.items() if c > 1)
     defs = []
     for node in fdefs:
         checked = []
@@ -514,15 +561,39 @@ def module_model_input(mods, root):
                 break
             checked.append(child)
         rets = [n.value for n in ast.walk(node) if isinstance(n, ast.Return)]
-        defs.append((node.name, [T.s_of(c) for c in checked],
+        defs.append((node.name, bool(node.decorator_list), [T.s_of(c) for c in checked],
                      [T.CONST0 if v is None else T.e_of(v) for v in rets]))
     classes = []
     for node in ast.walk(root):
-        if isinstance(node, ast.ClassDef):
+        if isinstance(node, ast.ClassDef) and not (node.bases or node.keywords or node.decorator_list):
             ctors = [fdefs.index(c) for c in node.body
                      if isinstance(c, ast.FunctionDef) and c.name in ("__init__", "__post_init__", "__new__")]
             classes.append((node.name, ctors))
-    return defs, shadowed, classes
+    return defs, sorted(shadowed), dups, classes
+
+
+def underscore_is_read(root) -> bool:
+    """`_` is loaded, or declared global / nonlocal, somewhere in the module"""
+    for n in ast.walk(root):
+        if isinstance(n, ast.Name) and n.id == "_" and isinstance(n.ctx, ast.Load):
+            return True
+        if isinstance(n, (ast.Global, ast.Nonlocal)) and "_" in n.names:
+            return True
+    return False
+
+
+def def_body_hidden_from_model(stmts) -> bool:
+    """The term of a `def` does not carry the function body (it is not executed by the statement), but the iteration
+    guard of delete_pointless_statements walks into it: a harmless `def _` whose body iterates is out of the domain."""
+    for st in stmts:
+        for n in ast.walk(st):
+            if isinstance(n, (ast.FunctionDef, ast.AsyncFunctionDef)) and n.name == "_":
+                if any(isinstance(m, (ast.For, ast.AsyncFor, ast.comprehension, ast.Starred)) for m in ast.walk(n)):
+                    return True
+    return False
+
+
+CASE_T = "list name * list name * list name * list fdef * list (name * list nat) * bool * bool * stmts"
 
 
 def check_modules(run, mods, wd, rnd, cov):
@@ -531,30 +602,42 @@ def check_modules(run, mods, wd, rnd, cov):
     sources = gen_modules(run, rnd)
     disagreements = []
     cases, keep = [], []
+    n_try = 0
     for src in sources:
         core.parse.cache_clear()
         root = core.parse(src)
         try:
-            defs, shadowed, classes = module_model_input(mods, root)
-            body_terms = [T.s_of(c) for c in root.body]
+            defs, shadowed, dups, classes = module_model_input(mods, root)
+            # the bodies whose decision is compared: the module body, and the body of every top-level try statement
+            # with handlers (there the statement must also be unable to raise)
+            bodies = [(False, root.body)]
+            bodies += [(True, st.body) for st in root.body if isinstance(st, ast.Try) and st.handlers]
+            if def_body_hidden_from_model(root.body):
+                continue
+            body_terms = [[T.s_of(c) for c in b] for _, b in bodies]
         except T.Unsupported:
             continue
         with common.quiet(), watchdog(20, f"parsing.safe_callable_names / delete_pointless_statements on {src!r}"):
             real = set(parsing.safe_callable_names(root)) - SAFE
             deleted = {id(n) for n, _ in fixes.delete_pointless_statements._fix_func(src)}
-        real_flags = [id(c) in deleted for c in core.parse(src).body]
+        assert core.parse(src) is root
+        us_used = underscore_is_read(root)
         names = set()
-        for t in body_terms:
-            names |= T.names_in(t)
-        for _, ch, rets in defs:
+        for bt in body_terms:
+            names |= T.names_in(bt)
+        for _, _, ch, rets in defs:
             names |= T.names_in(ch) | T.names_in(rets)
         names |= {d[0] for d in defs} | {c[0] for c in classes}
         base = sorted(names & SAFE)
-        dtxt = glist(defs, lambda d: f"(mkF {T.q(d[0])} {T.slist(d[1])} {T.elist(d[2], T.e_coq)})")
+        dtxt = glist(defs, lambda d: f"(mkF {T.q(d[0])} {gbool(d[1])} {T.slist(d[2])} {T.elist(d[3], T.e_coq)})")
         ctxt = glist(classes, lambda c: f"({T.q(c[0])}, {glist(c[1], str)})")
-        cases.append(f"({glist(base, T.q)}, {glist(shadowed, T.q)}, {dtxt}, {ctxt}, {T.slist(body_terms)})")
-        keep.append((src, sorted(real), real_flags, sorted(names - SAFE)))
-    # model: for each case, the safe names among the candidate names and the top-level deletion flags
+        for (in_try, b), bt in zip(bodies, body_terms):
+            real_flags = [id(c) in deleted for c in b]
+            cases.append(f"({glist(base, T.q)}, {glist(shadowed, T.q)}, {glist(dups, T.q)}, {dtxt}, {ctxt}, "
+                         f"{gbool(in_try)}, {gbool(us_used)}, {T.slist(bt)})")
+            keep.append((src, sorted(real), real_flags, sorted(names - SAFE), in_try))
+            n_try += in_try
+    # model: for each case, the safe names among the candidate names and the deletion flags of the body
     files, shards = [], []
     per = 150
     for k in range(0, len(cases), per):
@@ -562,12 +645,13 @@ def check_modules(run, mods, wd, rnd, cov):
         body = ";\n ".join(cases[k:k + per])
         cand = ";\n ".join(glist(kk[3], T.q) for kk in keep[k:k + per])
         p.write_text(PRELUDE + intern_names(
-                     "Definition cases : list (list name * list name * list fdef * list (name * list nat) * stmts) := [\n "
+                     f"Definition cases : list ({CASE_T}) := [\n "
                      + body + "\n].\nDefinition cands : list (list name) := [\n " + cand + "\n].\n") +
-                     "Definition run1 (c : list name * list name * list fdef * list (name * list nat) * stmts) (cs : list name) : list nat :=\n"
-                     "  let '(base, sh, defs, cls, body) := c in\n"
-                     "  let safe := safe_callable_names base sh defs cls in\n"
-                     "  [List.length cs] ++ map (fun x => bit (mem x safe)) cs ++ map bit (pointless body safe) ++ [7].\n"
+                     f"Definition run1 (c : {CASE_T}) (cs : list name) : list nat :=\n"
+                     "  let '(base, sh, dups, defs, cls, in_try, us_used, body) := c in\n"
+                     "  let safe := safe_callable_names base sh dups defs cls in\n"
+                     "  [List.length cs] ++ map (fun x => bit (mem x safe)) cs\n"
+                     "  ++ map bit (pointless_ctx in_try us_used body safe) ++ [7].\n"
                      "Eval vm_compute in (List.concat (map (fun p => run1 (fst p) (snd p)) (combine cases cands))).\n")
         files.append(p); shards.append(keep[k:k + per])
     results = common.run_case_files(files)
@@ -578,19 +662,21 @@ def check_modules(run, mods, wd, rnd, cov):
         if nums is None:
             raise RuntimeError(f"model evaluation failed for {p.name}: {txt[-1500:]}")
         pos = 0
-        for src, real, real_flags, cand in shard:
+        for src, real, real_flags, cand, in_try in shard:
             n = nums[pos]; pos += 1
             assert n == len(cand), (n, cand)
             msafe = sorted(c for c, b in zip(cand, nums[pos:pos + n]) if b); pos += n
             mflags = [bool(b) for b in nums[pos:pos + len(real_flags)]]; pos += len(real_flags)
             assert nums[pos] == 7, "desynchronised model output"; pos += 1
-            if msafe != real:
+            if msafe != real and not in_try:
                 disagreements.append({"case": src, "fn": "safe_callable_names", "impl": real, "model": msafe})
             if mflags != real_flags:
-                disagreements.append({"case": src, "fn": "delete_pointless_statements (top-level decision)",
+                disagreements.append({"case": src, "fn": "delete_pointless_statements "
+                                      + ("(decision in a try body)" if in_try else "(top-level decision)"),
                                       "impl": real_flags, "model": mflags})
             n_del += sum(real_flags)
-    cov.update(module_cases=len(keep), module_statements_deleted=n_del, module_disagreements=len(disagreements))
+    cov.update(module_cases=len(keep), module_try_bodies=n_try, module_statements_deleted=n_del,
+               module_disagreements=len(disagreements))
     return disagreements, [keep[0][0], keep[len(keep) // 2][0]]
 
 
@@ -628,8 +714,11 @@ L_DRAWS = 5
 class World:
     """One run: a script of draws, a log of events."""
 
-    def __init__(self, script, ho=()):
+    def __init__(self, script, ho=(), real=False, raisers=(), unbound=()):
         self.script, self.pos, self.log, self.ho = script, 0, [], frozenset(ho)
+        # real: defined functions / classes and the builtins really run, call arguments are logged;
+        # raisers: names of unknown objects whose operations may raise E; unbound: names whose lookup may raise E
+        self.real, self.raisers, self.unbound = real, frozenset(raisers), frozenset(unbound)
 
     def draw(self):
         if self.pos < len(self.script):
@@ -642,23 +731,51 @@ class World:
         return 0
 
 
+REAL_BUILTINS = {"str", "repr", "len", "hash", "getattr", "hasattr", "int", "float", "bool", "format", "type", "iter",
+                 "list", "tuple", "dict", "set", "frozenset", "sorted", "sum", "range", "object", "isinstance",
+                 "property", "super", "enumerate", "zip", "reversed", "any", "all", "min", "max", "abs", "dir", "vars",
+                 "staticmethod", "classmethod", "Exception", "NotImplementedError", "next", "callable", "id"}
+
+
+def summary(x):
+    """what an observer sees of a call argument"""
+    if x is None or isinstance(x, (bool, int, str)):
+        return repr(x)
+    if isinstance(x, (tuple, list)):
+        return type(x).__name__ + "(" + ",".join(summary(i) for i in x) + ")"
+    name = getattr(type(x), "__name__", "?")
+    if name == "Stub":
+        return "stub:" + object.__getattribute__(x, "_name")
+    if isinstance(x, type) or callable(x) and hasattr(x, "__name__"):
+        return "def:" + getattr(x, "__name__", "?")
+    return "obj:" + name
+
+
 def make_world_classes(w: World):
+    def may_raise(obj):
+        if w.raisers and type(obj).__name__ == "Stub" and object.__getattribute__(obj, "_name") in w.raisers:
+            if w.draw():
+                raise _Stop()
+
     class U:
         def __bool__(self):
             return bool(w.draw())
 
         def __iter__(self):
+            may_raise(self)
             return iter([U() for _ in range(w.draw())])
 
         def __getattr__(self, a):
             if a.startswith("__") and a.endswith("__"):
                 raise AttributeError(a)
+            may_raise(self)
             return M(a)
 
         def __setattr__(self, a, v):
             w.log.append(("storeattr",))
 
         def __getitem__(self, i):
+            may_raise(self)
             return U()
 
         def __setitem__(self, i, v):
@@ -677,6 +794,7 @@ def make_world_classes(w: World):
             return False
 
         def __format__(self, spec):
+            may_raise(self)
             return "u"
 
         def keys(self):
@@ -685,6 +803,7 @@ def make_world_classes(w: World):
         __hash__ = object.__hash__
 
     def _op(self, *a):
+        may_raise(self)
         return U()
 
     for nm in ("add", "radd", "iadd", "sub", "rsub", "lt", "gt", "le", "ge", "eq", "ne", "neg", "pos", "invert",
@@ -704,7 +823,11 @@ def make_world_classes(w: World):
             object.__setattr__(self, "_name", name)
 
         def __call__(self, *a, **k):
-            w.log.append(("call", self._name))
+            if w.real:
+                w.log.append(("call", self._name, tuple(summary(x) for x in a)))
+            else:
+                w.log.append(("call", self._name))
+            may_raise(self)
             if self._name in w.ho:
                 for x in list(a) + list(k.values()):
                     if isinstance(x, Stub):
@@ -724,6 +847,11 @@ def make_world_classes(w: World):
                 return _Stop
             if self.real and k in self.vals:
                 return self.vals[k]
+            if k in w.unbound and w.draw():
+                raise _Stop()            # stands for the NameError of a name that may be unbound
+            if self.real and k in REAL_BUILTINS:
+                import builtins
+                return getattr(builtins, k)
             return self.stubs[k] if k in self.stubs else Stub(k)
 
         def __setitem__(self, k, v):
@@ -737,7 +865,7 @@ def make_world_classes(w: World):
     return U, Stub, Env
 
 
-def explore_src(src, names, ho, real=False):
+def explore_src(src, names, ho, real=False, raisers=(), unbound=()):
     """all behaviours (trace, outcome) over every script of draws in {0,1,2} of length <= L_DRAWS"""
     import warnings
     try:
@@ -746,9 +874,9 @@ def explore_src(src, names, ho, real=False):
             code = compile(src, "<stmt>", "exec")
     except SyntaxError:
         return None
-    w = World([], ho)
+    w = World([], ho, real, raisers, unbound)
     U, Stub, Env = make_world_classes(w)
-    stubs = {n: Stub(n) for n in names}
+    stubs = {n: Stub(n) for n in names if not (real and n in REAL_BUILTINS)}
     seen, stack, runs, partial, errors = set(), [[]], 0, False, 0
     while stack:
         script = stack.pop()
@@ -776,7 +904,7 @@ def explore_src(src, names, ho, real=False):
         except _Stop:
             out = "raise"
         except (TypeError, AttributeError, ValueError, KeyError, IndexError, NameError, RecursionError,
-                AssertionError, ZeroDivisionError):
+                AssertionError, ZeroDivisionError, ImportError):
             partial = True
             errors += 1
             continue
@@ -1117,6 +1245,49 @@ def call_sigs(node) -> set:
     return sigs
 
 
+NONLIT = (ast.Name, ast.Attribute, ast.Subscript)   # an operand whose type the tool cannot know
+DISPATCHING = {"str", "repr", "len", "hash", "getattr", "hasattr", "int", "float", "bool", "format", "type", "iter",
+               "abs", "dir", "vars", "callable", "isinstance", "id", "bytes", "complex", "round", "divmod", "pow",
+               "ascii", "bin", "hex", "oct", "issubclass", "reversed", "enumerate", "zip", "range", "slice"}
+
+
+def dispatch_sigs(roots) -> set:
+    """F16-16 / F16-17: the deleted statements call nothing but builtins, and apply an operator / attribute read /
+    subscript / formatting / truth test (operator_dispatch) or a builtin that dispatches to a dunder method
+    (builtin_dispatch) to an operand that is a name / attribute / subscript.  A deleted statement that calls anything
+    else is never covered by these two."""
+    import builtins
+    nodes = [n for r in roots for n in ast.walk(r)]
+    for n in nodes:
+        if isinstance(n, ast.Call) and not (isinstance(n.func, ast.Name) and hasattr(builtins, n.func.id)):
+            return set()
+    sigs = set()
+    for n in nodes:
+        ops = []
+        if isinstance(n, ast.BinOp):
+            ops = [n.left, n.right]
+        elif isinstance(n, ast.UnaryOp):
+            ops = [n.operand]
+        elif isinstance(n, ast.Compare):
+            ops = [n.left, *n.comparators]
+        elif isinstance(n, (ast.Attribute, ast.Subscript, ast.Starred)) and isinstance(n.ctx, ast.Load):
+            ops = [n.value]
+        elif isinstance(n, ast.FormattedValue):
+            ops = [n.value]
+        elif isinstance(n, ast.BoolOp):
+            ops = n.values[:-1]
+        elif isinstance(n, (ast.IfExp, ast.If)):
+            ops = [n.test]
+        elif isinstance(n, ast.Dict):
+            ops = [v for k, v in zip(n.keys, n.values) if k is None]
+        if any(isinstance(o, NONLIT) for o in ops):
+            sigs.add("operator_dispatch")
+        if (isinstance(n, ast.Call) and isinstance(n.func, ast.Name) and n.func.id in DISPATCHING
+                and any(isinstance(a, NONLIT) for a in n.args)):
+            sigs.add("builtin_dispatch")
+    return sigs
+
+
 def finding_sig(src_before, deleted=None):
     """structural predicates of the listed findings.  F16-12 (callee_by_name) also covers callees that cannot be
     resolved by their bare name: a name with several definitions, an imported name, a decorated definition, a
@@ -1138,7 +1309,20 @@ def finding_sig(src_before, deleted=None):
             if d.decorator_list or (isinstance(d, ast.ClassDef) and (d.bases or d.keywords)):
                 suspect.add(name)
     roots = list(tree.body) if deleted is None else list(deleted)
-    sigs, seen, todo = set(), set(), list(roots)
+    # F16-21 / F16-22 never cover a statement under the protection of an except clause (there the raise is the point:
+    # repaired defect F16-16) nor one that touches `_` while `_` is read (repaired defect F16-17)
+    guarded = set()
+    for t in ast.walk(tree):
+        if isinstance(t, ast.Try) and t.handlers:
+            for b in t.body:
+                guarded |= {(n.lineno, n.col_offset) for n in ast.walk(b) if isinstance(n, ast.stmt)}
+    us_read = underscore_is_read(tree)
+
+    def dispatch_root(r):
+        if (getattr(r, "lineno", None), getattr(r, "col_offset", None)) in guarded:
+            return False
+        return not (us_read and any(isinstance(n, ast.Name) and n.id == "_" for n in ast.walk(r)))
+    sigs, seen, todo = dispatch_sigs([r for r in roots if dispatch_root(r)]), set(), list(roots)
     while todo:
         node = todo.pop()
         sigs |= call_sigs(node)
@@ -1201,7 +1385,7 @@ def check_end_to_end(run, mods, wd, rnd, cov):
     return fails
 
 
-def search_failing_input(mods, src):
+def search_failing_input(mods, src, raisers=(), unbound=()):
     """the property's own oracle on one source text: run delete_pointless_statements, execute before / after
     (defined functions really run) under every script; returns a record when the observable behaviours differ"""
     fixes, constants, core = mods["fixes"], mods["constants"], mods["core"]
@@ -1225,7 +1409,8 @@ def search_failing_input(mods, src):
     global L_DRAWS
     saved, L_DRAWS = L_DRAWS, 4
     try:
-        b1, b2 = explore_src(src, names, HO, real=True), explore_src(out, names, HO, real=True)
+        b1 = explore_src(src, names, HO, real=True, raisers=raisers, unbound=unbound)
+        b2 = explore_src(out, names, HO, real=True, raisers=raisers, unbound=unbound)
     finally:
         L_DRAWS = saved
     if b1 is None or b2 is None or not b1[0]:
@@ -1258,6 +1443,119 @@ def check_class_family(run, mods, cov):
 
 
 # ---------------------------------------------------------------------------------------------
+# hunt families (round 4): programs in which the statement under test matters for a reason the single-statement
+# contexts above cannot show -- it may raise inside a `try` body, it binds `_` and `_` is read later, its operands
+# are user objects with dunder methods, it iterates an unknown iterable, it instantiates a class with bases, its
+# callee name is shadowed.  Every program goes through delete_pointless_statements and is executed before / after.
+
+TRY_PROBES = ["unicode", "d[k]", "d.attr", "int(s)", "a + b", "-a", "a < b", "f'{a}'", "d[k][j]", "len(d)",
+              "(d[k], 1)", "d[k] if c else 1", "[x for x in d]", "d[k]\n{i}d.attr", "1", "'text'", "pass", "None",
+              "if c:\n{i}    d[k]", "for _ in d:\n{i}    pass", "if c:\n{i}    1\n{i}else:\n{i}    int(s)"]
+TRY_SHAPES = [
+    ("handlers", "try:\n    {p}\nexcept E:\n    handled()\n", "    "),
+    ("handlers_else", "try:\n    {p}\nexcept E:\n    handled()\nelse:\n    fine()\n", "    "),
+    ("handlers_finally", "try:\n    {p}\nexcept E:\n    handled()\nfinally:\n    cleanup()\n", "    "),
+    ("in_function", "def f():\n    try:\n        {p}\n    except E:\n        return handled()\n    return fine()\nf()\n", "        "),
+    ("nested_with", "try:\n    with cm:\n        {p}\nexcept E:\n    handled()\n", "        "),
+    ("nested_try", "try:\n    try:\n        {p}\n    finally:\n        cleanup()\nexcept E:\n    handled()\n", "        "),
+    ("second_statement", "try:\n    start()\n    {p}\nexcept E:\n    handled()\n", "    "),
+    ("loop_in_try", "try:\n    for i in [1, 2]:\n        {p}\nexcept E:\n    handled()\n", "        "),
+]
+TRY_RAISERS = ("d", "s", "a", "b", "int")
+TRY_UNBOUND = ("unicode",)
+
+UNDERSCORE_PROGRAMS = [
+    "_ = gettext.gettext\nuse(_('hi'))\n", "_ = 5\nuse(_)\n", "def _(s):\n    return s\nuse(_('hi'))\n",
+    "for _ in [1, 2]:\n    pass\nuse(_)\n", "_ = {}\n_['a'] = 1\nuse(_['a'])\n", "class _:\n    v = 3\nuse(_.v)\n",
+    "(_ := 7)\nuse(_)\n", "_ = 1\n_ += 1\nuse(_)\n", "def f():\n    global _\n    _ = 1\nf()\nuse(_)\n",
+    "if c:\n    _ = 1\nelse:\n    _ = 2\nuse(_)\n", "_, x = 1, 2\nuse(_, x)\n",
+    "def g():\n    _ = 3\n    return _\nuse(g())\n",
+    # controls: `_` never read
+    "_ = 5\nuse(1)\n", "for _ in [1, 2]:\n    pass\nuse(1)\n", "def _(s):\n    return s\nuse(1)\n",
+]
+CLASS_US_PROGRAMS = [
+    "class Base:\n    def __init_subclass__(cls):\n        print('reg')\nclass _(Base):\n    pass\n",
+    "class Base:\n    def __init_subclass__(cls, **kw):\n        print('reg')\nclass _(Base, flag=True):\n    pass\n",
+    "class Meta(type):\n    def __new__(m, n, b, ns):\n        print('meta')\n        return type.__new__(m, n, b, ns)\nclass _(metaclass=Meta):\n    pass\n",
+    "class _(object):\n    pass\n", "class _:\n    pass\n",
+]
+DUNDER_PRELUDE = ("class T:\n    def __rshift__(self, o):\n        print('rshift')\n    def __neg__(self):\n        print('neg')\n"
+                  "    def __lt__(self, o):\n        print('lt')\n        return True\n    def __getitem__(self, i):\n        print('getitem')\n"
+                  "    def __format__(self, s):\n        print('format')\n        return ''\n    def __bool__(self):\n        print('bool')\n        return True\n"
+                  "    def __str__(self):\n        print('str')\n        return ''\n    def __len__(self):\n        print('len')\n        return 0\n"
+                  "    def __hash__(self):\n        print('hash')\n        return 0\n    def __getattr__(self, n):\n        print('getattr')\n"
+                  "    def __iter__(self):\n        print('iter')\n        return iter(())\n    def keys(self):\n        print('keys')\n        return []\n"
+                  "    @property\n    def p(self):\n        print('prop')\nt = T()\nu = T()\n")
+DUNDER_STATEMENTS = ["t >> u", "-t", "t < u", "t[0]", "f'{t}'", "if t:\n    pass", "t.p", "t.zz", "{**t}", "t and 1", "1 if t else 2",
+                     "not t", "[*t]", "t >> 1", "(t, -t)"]
+BUILTIN_DUNDER_STATEMENTS = ["str(t)", "getattr(t, 'zz')", "len(t)", "hash(t)", "bool(t)", "repr(t)", "format(t)", "hasattr(t, 'q')",
+                             "list(t)", "sorted(t)"]
+ITER_PRELUDE = "def gen():\n    print('advanced')\n    yield 1\nit = gen()\n"
+ITER_STATEMENTS = ["for _ in it:\n    pass", "[x for x in it]", "[*it]", "{x for x in it}", "{x: 1 for x in it}",
+                   "[0 for _ in [1] for y in it]", "[x for x in [1, 2]]", "for _ in range(3):\n    pass", "for _ in [1, 2]:\n    pass",
+                   "[x for x in enumerate(it)]", "for _ in zip(it, [1]):\n    pass", "len([x for x in it])"]
+SHADOW_PROGRAMS = [
+    "class A:\n    def __init__(self):\n        print('hi')\nclass B(A):\n    pass\nB()\n",
+    "class Meta(type):\n    def __call__(cls):\n        print('call')\nclass C(metaclass=Meta):\n    pass\nC()\n",
+    "def cb():\n    return 1\ndef run(cb):\n    cb()\nrun(lambda: print('hi'))\n",
+    "class A:\n    def show(self):\n        return 1\ndef show():\n    print('shown')\nshow()\n",
+    "def f():\n    return 1\ndef g(f=print):\n    f()\ng()\n",
+    "def f():\n    return 1\nwith cm as f:\n    f()\n",
+    "def f():\n    return 1\ntry:\n    pass\nexcept E as f:\n    f()\n",
+    "def f():\n    return 1\nfor f in [print]:\n    f()\n",
+    "def f():\n    return 1\nimport os as f\nf.getcwd()\n",
+    "def f():\n    return 1\nf()\n",
+]
+
+
+def hunt_family():
+    """(tag, hunt item, source, raisers, unbound)"""
+    out = []
+    for tag, shape, ind in TRY_SHAPES:
+        for p in TRY_PROBES:
+            out.append((f"try/{tag}", "C16-3", shape.replace("{p}", p.replace("{i}", ind)), TRY_RAISERS, TRY_UNBOUND))
+    # the same probes where no handler can see the exception: else / finally / handler bodies, plain function
+    for p in TRY_PROBES[:8]:
+        out.append(("try/else_clause", "C16-3", f"try:\n    start()\nexcept E:\n    handled()\nelse:\n    {p}\n", (), ()))
+        out.append(("try/no_handlers", "C16-3", f"try:\n    {p}\nfinally:\n    cleanup()\n", (), ()))
+    for src in UNDERSCORE_PROGRAMS:
+        out.append(("underscore", "C16-4", src, (), ()))
+    for src in CLASS_US_PROGRAMS:
+        out.append(("class_underscore", "C16-5", src, (), ()))
+    for s in DUNDER_STATEMENTS:
+        out.append(("dunder", "C16-6", DUNDER_PRELUDE + s + "\n", (), ()))
+    for s in BUILTIN_DUNDER_STATEMENTS:
+        out.append(("builtin_dunder", "C16-7", DUNDER_PRELUDE + s + "\n", (), ()))
+    for s in ITER_STATEMENTS:
+        out.append(("iteration", "C16-8", ITER_PRELUDE + s + "\n", (), ()))
+    for src in SHADOW_PROGRAMS:
+        out.append(("shadowed", "C01-a-6/7", src, (), ()))
+    return out
+
+
+def check_hunt_family(run, mods, cov):
+    fails, known, n, n_changed = [], Counter(), 0, 0
+    per_tag = Counter()
+    for tag, item, src, raisers, unbound in hunt_family():
+        n += 1
+        r = search_failing_input(mods, src, raisers, unbound)
+        if r is None:
+            continue
+        n_changed += 1
+        per_tag[tag.split("/")[0]] += 1
+        r["family"], r["hunt"] = tag, item
+        if r["sigs"]:
+            for s in r["sigs"]:
+                known[s] += 1
+            r["matched"] = True
+        fails.append(r)
+    cov.update(hunt_family_programs=n, hunt_family_behaviour_changed=n_changed, hunt_family_known=dict(known),
+               hunt_family_changed_by_family=dict(per_tag),
+               hunt_family_failures=len([f for f in fails if not f.get("matched")]))
+    return fails
+
+
+# ---------------------------------------------------------------------------------------------
 # witnesses of the repaired defects (must pass) and of the listed findings (must still fail)
 
 FIXED_WITNESSES = {
@@ -1272,11 +1570,28 @@ FIXED_WITNESSES = {
     "F16-11": ["def f():\n    raise E\nf()\n", "def f():\n    while True:\n        print(1)\nf()\n",
                "def f():\n    assert False\nf()\n"],
 }
+FIXED_WITNESSES.update({
+    # F16-12 (callees identified by a bare name), repaired by 094537d and c5a2ed7
+    "F16-12": ["_()\n",
+               "class A:\n    def f(self):\n        return 1\nclass B:\n    def f(self):\n        print('x')\nB().f()\n",
+               "from m import f\nclass A:\n    def f(self):\n        return 1\nf()\n",
+               "class A(Base):\n    pass\nA()\n", "@deco\ndef f():\n    return 1\nf()\n",
+               "def cb():\n    return 1\ndef run(cb):\n    cb()\n", "def f():\n    return 1\ndef g(f=print):\n    f()\n"],
+})
+# hunt C16-3 (b77e1c1), C16-4 (c5a2ed7), C16-5 (b8422f7), C16-8 (6a72b20): delete_pointless_statements must not touch them
+UNCHANGED_WITNESSES = {}
+UNCHANGED_WITNESSES.update({
+    "F16-16": ["try:\n    unicode\nexcept NameError:\n    unicode = str\n", "try:\n    int(s)\nexcept ValueError:\n    print('bad')\n",
+              "try:\n    d['k']\nexcept KeyError:\n    print('missing')\n",
+              "try:\n    if x:\n        d['k']\nexcept KeyError:\n    print('missing')\n"],
+    "F16-17": ["print(_)\n_ = 5\n", "print(_('hi'))\ndef _(s):\n    return s\n", "print(_)\nfor _ in range(3):\n    pass\n",
+              "_ = {}\nprint(_)\n_['a'] = 1\n", "def k():\n    global _\n_ = 1\n"],
+    "F16-18": ["class _(Base):\n    pass\n", "class _(B, flag=True):\n    pass\n", "class _(metaclass=M):\n    pass\n"],
+    "F16-19": ["for _ in it:\n    pass\n", "[x for x in it]\n", "[*it]\n", "{x: 1 for x in it}\n", "[0 for _ in [1] for y in it]\n"],
+})
 FINDING_WITNESSES = {
-    "callee_by_name": ["_()\n",
-                       "class A:\n    def f(self):\n        return 1\nclass B:\n    def f(self):\n        print('x')\nB().f()\n",
-                       "from m import f\nclass A:\n    def f(self):\n        return 1\nf()\n",
-                       "class A(Base):\n    pass\nA()\n", "@deco\ndef f():\n    return 1\nf()\n"],
+    "operator_dispatch": ["t >> u\n", "-t\n", "t < u\n", "t[0]\n", "t.p\n", "f'{t}'\n", "if t:\n    pass\n", "{**t}\n"],
+    "builtin_dispatch": ["str(t)\n", "getattr(t, 'zz')\n", "len(t)\n", "hash(t)\n"],
     "higher_order_builtin": ["list(map(print, xs))\n", "sorted(xs, key=print)\n"],
     "drains_lazy_iterator": ["m = map(lambda x: print('lazy', x), xs)\nlist(m)\n",
                              "g = (print(x) for x in xs)\nsum(g)\n"],
@@ -1306,6 +1621,7 @@ def check(run, mods, wd, rnd):
     t3 = time.time()
     e2e = check_end_to_end(run, mods, wd, rnd, cov)
     e2e += check_class_family(run, mods, cov)
+    e2e += check_hunt_family(run, mods, cov)
     t4 = time.time()
     cov["stage_wall_s"] = {"hse": round(t1 - t0, 1), "modules": round(t2 - t1, 1), "semantics": round(t3 - t2, 1),
                            "end_to_end": round(t4 - t3, 1)}
@@ -1316,7 +1632,14 @@ def check(run, mods, wd, rnd):
         for w in ws:
             if still_deleted(mods, w):
                 regress.append({"finding": fid, "case": w})
-    cov["fixed_witnesses"] = sum(len(v) for v in FIXED_WITNESSES.values())
+    for fid, ws in UNCHANGED_WITNESSES.items():
+        for w in ws:
+            mods["core"].parse.cache_clear()
+            with common.quiet():
+                out = mods["fixes"].delete_pointless_statements(w)
+            if out != w:
+                regress.append({"finding": fid, "case": w, "after": out})
+    cov["fixed_witnesses"] = sum(len(v) for v in FIXED_WITNESSES.values()) + sum(len(v) for v in UNCHANGED_WITNESSES.values())
 
     # listed findings
     kf = {f.fields.get("sig"): f for f in common.load_findings(PID) if f.kind == "finding"}
